@@ -87,3 +87,61 @@ Proof.
   - exact Hle.
 Qed.
 End Now.
+
+(* ---- iterating a binary file loses nothing ---- *)
+Lemma file_lines_from_concat s : forall cur, concat (file_lines_from s cur) = rev cur ++ s.
+Proof.
+  induction s as [|c r IH]; intros cur.
+  - cbn. destruct cur as [|x cur]; [reflexivity|]. cbn [concat]. unfold rev'. rewrite <- rev_alt, !app_nil_r.
+    reflexivity.
+  - cbn [file_lines_from]. destruct (c =? 10).
+    + cbn [concat]. rewrite IH. unfold rev'. rewrite <- rev_alt. cbn [rev app]. rewrite <- app_assoc. reflexivity.
+    + rewrite IH. cbn [rev]. rewrite <- app_assoc. reflexivity.
+Qed.
+
+Lemma file_lines_concat c : concat (file_lines c) = c.
+Proof. unfold file_lines. rewrite file_lines_from_concat. reflexivity. Qed.
+
+(* ---- the regenerated constants end in a newline where the token-level theorem needs it ---- *)
+Lemma header_line_now_nl n : ends_with_nl (header_line_now n) = true.
+Proof.
+  unfold header_line_now. rewrite app_assoc, ends_with_nl_app; [reflexivity | discriminate].
+Qed.
+
+Lemma constants_nl :
+  nl_line_now = [10] /\ ends_with_nl end_line_now = true /\
+  Forall (fun l => ends_with_nl l = true) require_lua_preamble_package /\
+  Forall (fun l => ends_with_nl l = true) require_lua_preamble_require.
+Proof. repeat split; repeat constructor. Qed.
+
+(* the token-level statement for the concrete stack: what remains to be assumed is about the lexer
+   stack only (chunking of the reference tokenizer, faithful echo of the lexer model) *)
+Lemma build_code_tokens_now (T : Type) (sigt : bytes -> option (list T)) :
+  (forall a b ta tb, ends_with_nl a = true -> sigt a = Some ta -> sigt b = Some tb ->
+                     sigt (a ++ b) = Some (ta ++ tb)) ->
+  (forall a ta, sigt a = Some ta -> sigt (a ++ [10]) = Some ta) ->
+  sigt [] = Some [] ->
+  (forall ls q, from_lines ls = Ok q -> concat (echo_lines q) = concat ls) ->
+  forall cwd fs lua_path fuel main_path main_content out,
+  build_code_now cwd fs lua_path fuel main_path main_content = Ok out ->
+  exists r pk, build_lua_now cwd fs lua_path fuel main_path main_content = Ok (r, pk) /\
+    let toks := toks T sigt in
+    let lexes := lexes T sigt in
+    (Forall lexes require_lua_preamble_package -> Forall lexes require_lua_preamble_require ->
+     lexes end_line_now ->
+     Forall (fun e => lexes (header_line_now (fst e)) /\ lexes (concat (echo_lines (snd e)))) pk ->
+     lexes main_content ->
+     sigt out = Some match pk with
+                     | [] => toks main_content
+                     | _ => concat (map toks require_lua_preamble_package)
+                            ++ concat (map (fun e => toks (header_line_now (fst e))
+                                                     ++ toks (concat (echo_lines (snd e))) ++ toks end_line_now) pk)
+                            ++ concat (map toks require_lua_preamble_require) ++ toks main_content
+                     end).
+Proof.
+  intros H1 H2 H3 H4 cwd fs lua_path. destruct constants_nl as (Hnl & Hend & Hpp & Hpr).
+  exact (build_code_tokens lua from_lines echo_lines strip_lua walk_lua file_lines check_name_now
+           (find_in cwd fs lua_path) require_lua_preamble_package require_lua_preamble_require
+           header_line_now end_line_now nl_line_now T sigt H1 H2 H3 H4 file_lines_concat Hnl
+           header_line_now_nl Hend Hpp Hpr).
+Qed.
